@@ -304,6 +304,12 @@ func run(sp *varSpec, byName bool, ops []int) (fail string, judged bool) {
 				if v := sp.v[nApplyK%2]; v != nil {
 					ret.Set(reflect.ValueOf(v))
 				}
+				if v := sp.v[nApplyK%2]; v != nil && step%2 == 1 {
+					// a callback declared with the empty interface as its result (the natural shape in a
+					// table-driven test): only the dynamic type of what it returns counts
+					h[bi].Apply(func() interface{} { return v })
+					break
+				}
 				h[bi].Apply(reflect.MakeFunc(reflect.FuncOf(nil, []reflect.Type{typ}, false), func([]reflect.Value) []reflect.Value {
 					return []reflect.Value{ret}
 				}).Interface())
